@@ -1,13 +1,16 @@
 #!/usr/bin/env bash
 # Re-runs the responsible checks (quick tier) against every stored seeded change, on scratch
 # worktrees (never /repo), in N parallel lanes, and writes seeded/RECHECK.json:
-#   tools/recheck_seeds.sh [lanes=4] [pattern='C*']
+#   tools/recheck_seeds.sh [lanes=4] [patterns='C*']     (several patterns: "C17-* C19-* *-K")
+# With patterns other than 'C*' the results are merged into the existing seeded/RECHECK.json.
 # A seed counts as caught if at least one of the checks listed in its meta.json exits 1.
 set -u
 LANES="${1:-4}"; PATTERN="${2:-C*}"
 export CARGO_NET_OFFLINE=true
 OUT=/scratch/recheck; mkdir -p "$OUT"; rm -f "$OUT"/*.res
-ls -d /verif/seeded/$PATTERN/ | sed 's#/$##' > "$OUT/all.txt"
+set -f; PATS=($PATTERN); set +f
+for g in "${PATS[@]}"; do ls -d /verif/seeded/$g/; done | sed 's#/$##' | sort -u > "$OUT/all.txt"
+export RECHECK_PATTERN="$PATTERN"
 split -n l/$LANES -d "$OUT/all.txt" "$OUT/lane"
 lane() {
   L=$1; WT=/tmp/wt/lane$L; H=/scratch/lane$L
@@ -19,7 +22,7 @@ lane() {
   sed -i "s#path = \"/repo\"#path = \"$WT\"#" "$H/harness/Cargo.toml"
   while read -r D; do
     NAME=$(basename "$D")
-    IDS=$(python3 -c "import json;m=json.load(open('$D/meta.json'));print(' '.join(sorted({c.split(':')[0] for c in m['caught_by']})))")
+    IDS=$(python3 -c "import json;m=json.load(open('$D/meta.json'));import re;print(' '.join(sorted({c.split(':')[0] for c in m['caught_by'] if re.fullmatch(r'C[0-9][0-9]',c.split(':')[0])})))")
     git -C "$WT" checkout -q -- .
     if ! git -C "$WT" apply "$D/patch.diff" 2>/dev/null; then echo "$NAME APPLY-FAILED" >> "$OUT/lane$L.res"; continue; fi
     R=""
@@ -35,8 +38,10 @@ for L in $(seq 0 $((LANES-1))); do lane $L & done
 wait
 cat "$OUT"/lane*.res | sort > "$OUT/all.res"
 python3 - <<'PY'
-import json,datetime
+import json,datetime,os
 res={}
+if os.environ.get('RECHECK_PATTERN','C*')!='C*' and os.path.exists('/verif/seeded/RECHECK.json'):
+    res=json.load(open('/verif/seeded/RECHECK.json'))['seeds']
 for l in open('/scratch/recheck/all.res'):
     p=l.split(); name=p[0]
     if len(p)>1 and p[1]=='APPLY-FAILED': res[name]={'applied':False}; continue
